@@ -281,4 +281,39 @@ PROPS = {
         'trusted_base': ['the Go fault-injecting wrapper mirrors the Lean one (mkDiv)'],
         'assumptions': ['H and totals < 2^63 (the unsigned difference after-before does not wrap onto the dividend)'],
     },
+    'C07': {
+        'lean_targets': ['Cqos.Props.C07'],
+        'theorems': ['Cqos.C07.tinv_step', 'Cqos.C07.tinv_run', 'Cqos.C07.c07_v2_only_then', 'Cqos.C07.c07_v1_graceful_only_then',
+                     'Cqos.C07.stopped_false_v2', 'Cqos.C07.c07_no_error_calc', 'Cqos.C07.c07_no_error_recalc',
+                     'Cqos.C15.c15_drain_progress'],
+        'runs': [{'cmd': 'stepper', 'args': ['-family', 'terminate']}, {'cmd': 'stepper', 'args': ['-family', 'mixed']}],
+        'monitor_prefix': ['C07', 'C02 the discipline terminated normally'],
+        'level': 'proof',
+        'level_text': ('Lean theorems for every action list and divider: a terminated v2 discipline has every registered input '
+                       'drained (channel closed and empty), nothing in flight and no release outstanding; the same for v1 when it '
+                       'terminated without Stop/cancel (GracefulStop); with a sum-rule divider calcTactic/recalcTactic never report '
+                       'an error; in the drain state pending releases can always be consumed and termination follows once none is '
+                       'left. Tied by the stepper (isDrainedInputs, waitZeroActual, base on closing/closed inputs)'),
+        'level_note': 'partial: wall-clock promptness is a runtime matter; ' + 'trusted: correspondence by differential stepping (exact equality of actual/tactic/strategic/priorities/drained/output after each op); unbuffered inputs only open and empty; New/main/loop glue by black-box runs and facts',
+        'rule': 'stepper families terminate and mixed: inputs closed at different rounds, releases withheld / grouped, graceful',
+        'trusted_base': [],
+        'assumptions': ['priority keys of the Inputs map are distinct (Go map)'],
+    },
+    'C17': {
+        'lean_targets': ['Cqos.Props.C17'],
+        'theorems': ['Cqos.C17.c17_remove', 'Cqos.C17.c17_remove_unreg', 'Cqos.C17.c17_unregistered_not_read', 'Cqos.C17.c17_add',
+                     'Cqos.C17.c17_actual_survives', 'Cqos.C01.c01_v1', 'Cqos.C15.c15_args_v1', 'Cqos.C07.c07_v1_graceful_only_then'],
+        'runs': [{'cmd': 'stepper', 'args': ['-family', 'dynamic']}],
+        'monitor_prefix': ['C17', 'C02', 'C01'],
+        'level': 'proof',
+        'level_text': ('Lean theorems on the v1 machine whose alphabet contains the loop-top cases add/remove (the caller returns when '
+                       'the unbuffered command channel is received from): after remove the priority is unregistered and a channel no '
+                       'registered priority refers to is never received from until it is added again; after add the priority refers to '
+                       'the new channel, not drained; actual counts survive removal; capacity, exactly-once/FIFO, the argument contract '
+                       'and the termination invariant are proved across any sequence of add/replace/remove/re-add'),
+        'level_note': 'trusted: correspondence by differential stepping (exact equality of actual/tactic/strategic/priorities/drained/output after each op); unbuffered inputs only open and empty; New/main/loop glue by black-box runs and facts',
+        'rule': 'stepper family dynamic: add / replace / reconnect-after-close / remove / re-add interleaved with traffic and releases',
+        'trusted_base': [],
+        'assumptions': [],
+    },
 }
